@@ -108,16 +108,6 @@ Proof. unfold spec_b. rewrite configured_holds, errors_hold, fresh_holds. reflex
 
 (* ---------- the same, read functionally: which config a product is built from ---------- *)
 
-(* the config the registry must hand to the constructor when the counters of user-code
-   invocations and allocations stand at [s]: default (or zero) overlaid by the fill *)
-Definition expected_base (sh : shape) (o : oracle) (s : st) : cfgv :=
-  match sh_def sh with DefVal => o_dflt o (s_def s) | _ => vzero end.
-Definition expected_arg (sh : shape) (hf : bool) (o : oracle) (s : st) : carg :=
-  match sh_cfg sh with
-  | NoCfg => ANone
-  | k => mk_arg k (s_alloc s) (if hf then o_fill o (s_fill s) (expected_base sh o s) else expected_base sh o s)
-  end.
-
 Lemma new_product_arg_m sh hf o s :
   match reg_new sh hf o s with
   | (_, _, OOk p) => p_arg p = expected_arg sh hf o s
